@@ -1,4 +1,5 @@
 import GdVerif.Lemmas.Gs3Whole
+import GdVerif.Lemmas.Gs3Cut
 /-
   C08 (GameSpy 3) — `splitnum` packets: the response does not depend on the order of arrival; a
   packet that arrives twice gives an error or the same response.
@@ -90,4 +91,42 @@ example : feed Acc.init ([⟨2, true, [7]⟩, ⟨0, false, [5]⟩, ⟨1, false, 
   decide
 -- and the same with packet 0 delivered twice before the response is complete: an error
 example : feed Acc.init ([⟨2, true, [7]⟩, ⟨0, false, [5]⟩, ⟨0, false, [5]⟩, ⟨1, false, [6]⟩].map .ok) = .err .packetBad := by
+  decide
+
+/-! ### replies whose packets may end inside value lists (`Spec.ConfigC`, see `Props/C04_gs3.lean`)
+
+`C08_gs3_any_order` / `C08_gs3_duplicate` speak about ANY non-empty payloads, so they cover such
+packets as they are.  The statements against the SPEC's server, for `Spec.ConfigC` / `Spec.wfC` — any
+allowed extra sections, any packets ending inside the value list of their last section; `Spec.Config` /
+`Spec.wf` above is the case `cfg.toX.toC` (`C04_gs3_cut_conservative`, `C04_gs3_extra_conservative`).
+Here the order matters for more than the packet numbers: each packet is read from its own buffer, in
+the order of the ids — and the result is still that of in-order arrival. -/
+
+theorem C08_gs3_wire_any_order_cut (cfg : Spec.ConfigC) (st : Spec.State) (h : Spec.wfC cfg st = true)
+    (arrival : List Bytes) (harr : arrival.Perm (Spec.dataPacketsC cfg st))
+    (s : Sock) (hudp : s.tcp = false) (w : Net) (hq : w.conns.getD s.id [] = arrival.map .data) :
+    (recvAll s w).1 = .ok (Spec.payloadsC cfg st) := by
+  obtain ⟨hcount, hpay, hsize, _, _⟩ := wfC_wire cfg st h
+  unfold recvAll
+  have hlen : (w.conns.getD s.id []).length = arrival.length := by rw [hq]; simp
+  rw [recvPackets_result s hudp arrival _ _ w hq (by simp only [queued]; omega)]
+  exact feed_arrival_ps cfg.unknown (Spec.payloadsC cfg st) (payloadsC_ne_nil cfg st) hcount hpay hsize arrival harr
+
+theorem C08_gs3_query_any_order_cut (cfg : Spec.ConfigC) (st : Spec.State) (h : Spec.wfC cfg st = true) (port retries : Nat)
+    (arrival : List Bytes) (harr : arrival.Perm (Spec.dataPacketsC cfg st)) :
+    (query port retries (Net.init [.opened ((Spec.handshakeReply cfg.challenge :: arrival).map .data)] [])).1
+      = (query port retries (Net.init [.opened ((Spec.scriptC cfg st).map .data)] [])).1 := by
+  rw [query_eq, (exchangeC_spec cfg st h port retries buildResponse arrival harr).1]
+  exact (exchangeC_spec cfg st h port retries buildResponse _ (List.Perm.refl _)).1.symm
+
+theorem C08_gs3_query_vars_any_order_cut (cfg : Spec.ConfigC) (st : Spec.State) (h : Spec.wfC cfg st = true) (port retries : Nat)
+    (arrival : List Bytes) (harr : arrival.Perm (Spec.dataPacketsC cfg st)) :
+    (queryVars port retries (Net.init [.opened ((Spec.handshakeReply cfg.challenge :: arrival).map .data)] [])).1
+      = (queryVars port retries (Net.init [.opened ((Spec.scriptC cfg st).map .data)] [])).1 := by
+  rw [queryVars_eq, (exchangeC_spec cfg st h port retries buildVars arrival harr).1]
+  exact (exchangeC_spec cfg st h port retries buildVars _ (List.Perm.refl _)).1.symm
+
+-- non-vacuity: three packets, the first two ending inside the value list of `a_` (no closing 00), arriving as 2, 0, 1
+example : feed Acc.init ([⟨2, true, [97, 95, 0, 2, 55, 0, 0]⟩, ⟨0, false, [97, 95, 0, 0, 53, 0]⟩, ⟨1, false, [97, 95, 0, 1, 54, 0]⟩].map .ok)
+    = .ok [[97, 95, 0, 0, 53, 0], [97, 95, 0, 1, 54, 0], [97, 95, 0, 2, 55, 0, 0]] := by
   decide
